@@ -215,7 +215,7 @@ func TestCheck(t *testing.T) {
 				samples = append(samples, map[string]any{"config": cfg.Name, "trace": sys.Render(r.PathTo(r.Leaves[len(r.Leaves)/2]))})
 			}
 		}
-		res.Assumptions = []string{"one label = one atomic step (state injection into a fresh real MPCalContext per step)", "environment = the spec's mapping macros (FIFO links, perfect failure detector, LeaderElection as specified) written in Go, validated against TLC's graph by C02", "128-bit state hashing (collision probability negligible)"}
+		res.Assumptions = []string{"one label = one atomic step (state injection into a fresh real MPCalContext per step), which includes the environment resources: primary / fd do not change between two reads inside one section (a live leader-election resource re-evaluated on every read would let a backup promoted in the middle of rcvMsg skip the sync round; the repository's leaderelection.go is a constant)", "environment = the spec's mapping macros (FIFO links, perfect failure detector, LeaderElection as specified) written in Go, validated against TLC's graph by C02", "128-bit state hashing (collision probability negligible)"}
 		res.Coverage = map[string]any{"states": states, "transitions": trans, "traces_validated_against_impl": validated, "samples": samples, "configs": per, "exhaustive": exhaustive,
 			"distinct_histories_checked": len(histCache), "known_witness_paths_replayed": witnessReplayed}
 		return res
